@@ -303,6 +303,11 @@ def parallel_add(
     if n_workers is None:
         n_workers = max(1, psutil.cpu_count(logical=False))
 
+    # items is handed to a spawned process, so it must be picklable. Generators are
+    # not, so materialize anything that is not already a list or tuple.
+    if not isinstance(items, (list, tuple)):
+        items = list(items)
+
     ctx = get_context("spawn")
     queue = ctx.Queue(3 * n_workers)
     log_queue = ctx.Queue()
